@@ -181,8 +181,11 @@ def gen_registry(rng, tier):
     cases.append(Case("registry-grpc-quick-restart", q, True, "boundary"))
     # directed (both tiers): an address changes its persistence class by re-registration (persistent -> ephemeral through
     # another node, and back): the acknowledged registration must be listed everywhere afterwards
-    fl = ["up 3", "reg 1 svc4 10.0.0.8 80 0", "reg 2 svc4 10.0.0.9 80 1", "settle 2500", "reg 2 svc4 10.0.0.8 80 1", "reg 3 svc4 10.0.0.9 80 0",
-          "settle 3500", "listall svc4", "reg 3 svc4 10.0.0.8 80 0", "settle 3500", "listall svc4"]
+    # (the flips follow only after every node lists the registrations so far - `listall` collects answers until the nodes
+    # agree: a persistent registration reaches the other nodes with the commit, and a flip handled by a node that has not
+    # applied it yet is the open finding F33, whatever the pause was)
+    fl = ["up 3", "reg 1 svc4 10.0.0.8 80 0", "reg 2 svc4 10.0.0.9 80 1", "settle 2500", "listall svc4", "reg 2 svc4 10.0.0.8 80 1",
+          "reg 3 svc4 10.0.0.9 80 0", "settle 3500", "listall svc4", "reg 3 svc4 10.0.0.8 80 0", "settle 3500", "listall svc4"]
     cases.append(Case("registry-class-flip", fl, True, "boundary"))
     return cases
 
